@@ -4,7 +4,8 @@ From JoseV Require Export Jose.SigAlgs.
 From JoseV Require Import Jose.Stubs Gen.Tables Crypto.BigNum Crypto.Rsa Crypto.Ec Crypto.Mgf.
 Local Open Scope N_scope.
 
-Definition B := bigzops.
+Definition BT : Type := Bignums.BigZ.BigZ.BigZ.t_.
+Definition B : intops BT := bigzops.
 
 Definition b64m (name : bytes) (jwk : json) : option bytes :=
   match lookup name jwk with Some (JStr s) => dec s | _ => None end.
@@ -27,7 +28,7 @@ Definition rsa_pub (jwk : json) : option (bytes * bytes) :=
       if bytes_eqb t t_RSA then
         match b64m s_n jwk, b64m s_e jwk with
         | Some n, Some e =>
-            if forallb (fun m => opt_member_ok m jwk) [s_p; s_q; s_dp; s_dq; s_qi]
+            if forallb (fun m => opt_member_ok m jwk) [s_d; s_p; s_q; s_dp; s_dq; s_qi]
             then Some (n, e) else None
         | _, _ => None
         end
@@ -63,20 +64,24 @@ Definition curve_by_name (crv : bytes) : option (curve Z) :=
   if bytes_eqb crv c_P256 then Some p256 else if bytes_eqb crv c_P384 then Some p384
   else if bytes_eqb crv c_P521 then Some p521 else if bytes_eqb crv c_K256 then Some secp256k1 else None.
 
-(* jose_openssl_jwk_to_EC_KEY succeeds: named curve, x and y decode, EC_KEY_check_key *)
-Definition ec_pub (jwk : json) : option (curve Z * bytes * bytes) :=
+(* jose_openssl_jwk_to_EC_KEY succeeds: named curve, x and y decode, EC_KEY_check_key.
+   EC_POINT_set_affine_coordinates reduces both coordinates modulo the field prime (BN_nnmod) before the
+   curve equation is tested: the key that is used is the REDUCED point, returned here. *)
+Definition ec_pub (jwk : json) : option (curve Z * BT * BT) :=
   match get_opt_str Jwe.s_kty jwk, get_opt_str s_crv jwk with
   | OStr t, OStr c =>
       if bytes_eqb t t_EC then
         match curve_by_name c, b64m s_x jwk, b64m s_y jwk with
         | Some cv, Some x, Some y =>
             let cb := curve_of B cv in
-            if valid_public B cb (of_bytes B x) (of_bytes B y) then
+            let X := imod B (of_bytes B x) (c_p cb) in
+            let Y := imod B (of_bytes B y) (c_p cb) in
+            if valid_public B cb X Y then
               match lookup s_d jwk with
-              | None => Some (cv, x, y)
+              | None => Some (cv, X, Y)
               | Some (JStr ds) =>
                   match dec ds with
-                  | Some d => if valid_private B cb (of_bytes B d) (of_bytes B x) (of_bytes B y) then Some (cv, x, y) else None
+                  | Some d => if valid_private B cb (of_bytes B d) X Y then Some (cv, X, Y) else None
                   | None => None
                   end
               | Some _ => None
@@ -96,7 +101,7 @@ Definition es_verify (name : bytes) (jwk : json) (m sg : bytes) : bool :=
   | Some (cv, x, y) =>
       let l := bytes_len cv in
       if Nat.eqb (length sg) (2 * l) then
-        ecdsa_verify B (curve_of B cv) (of_bytes B x) (of_bytes B y) (hash (es_hash name) m)
+        ecdsa_verify B (curve_of B cv) x y (hash (es_hash name) m)
                      (of_bytes B (take l sg)) (of_bytes B (drop l sg))
       else false
   | None => false
